@@ -52,7 +52,9 @@ def run(ctx, replay):
         "distinct_nontrivial": sum(1 for c in cases if c["tree"]),
         "rule": "every step tree with <= MaxNodes nodes over {command (step env {} or {A}), wait, input, trigger, unknown, group} nested to "
                 "MaxDepth, x pipeline env in {{}, {A}, {A,B}}; key kind rotates over EdDSA, ES512, PS512, ES256 signer. Quick replays a seeded "
-                "sample of 6000 of the trees TLC enumerated, thorough all (and one more node). Non-trivial = non-empty tree.",
+                "sample of 6000 of the trees TLC enumerated, thorough all (and one more node). Decorations by the case: empty / shadowing step env "
+                "values, step-only names, stale signatures (own, or ONE object shared by several steps), empty plugin lists / matrices, leftover "
+                "keys, groups without a label. Non-trivial = non-empty tree.",
         "exhaustive": thorough,
         "signatures_made": sum(s.get("signatures_made", 0) for s in sums),
         "trace_events_rejected": len(bad),
